@@ -1,13 +1,13 @@
 (* C10 -- _c_api_utils.call_onnx_api as a small state machine over the part of the graph it touches: the list of graph
-   inputs (names, order), the graph outputs, the initializer table (insertion-ordered dict name -> tensor).
-   No proofs in this file. *)
+   inputs (names, order, and a code for the type/shape each value carries), the graph outputs, the initializer table
+   (insertion-ordered dict name -> tensor).  No proofs in this file. *)
 From Coq Require Import ZArith List Bool String.
 Import ListNotations.
 Local Open Scope Z_scope.
 
-Record tensor := Tensor { t_size : Z; t_id : Z }.           (* number of elements; identity of the payload *)
+Record tensor := Tensor { t_size : Z; t_id : Z; t_ty : Z }.   (* number of elements; identity of the payload; dtype/shape code *)
 Record gsig := GSig {
-  g_inputs : list string;                  (* graph.inputs, in order *)
+  g_inputs : list (string * Z);            (* graph.inputs, in order: name, code of the value's type and shape *)
   g_outputs : list string;
   g_inits : list (string * tensor) }.      (* graph.initializers, in dict order *)
 
@@ -30,7 +30,7 @@ Fixpoint prepare (limit : Z) (saved : list (string * tensor)) (g : gsig) : gsig 
   match saved with
   | [] => g
   | (k, v) :: r =>
-    let ins := if smemb k (g_inputs g) then g_inputs g else (g_inputs g ++ [k])%list in
+    let ins := if smemb k (map fst (g_inputs g)) then g_inputs g else (g_inputs g ++ [(k, t_ty v)])%list in
     let its := if t_size v >? limit then remove_key k (g_inits g) else g_inits g in
     prepare limit r (GSig ins (g_outputs g) its)
   end.
@@ -53,7 +53,9 @@ Fixpoint lookup_init (k : string) (l : list (string * tensor)) : option tensor :
 Definition keys (l : list (string * tensor)) : list string := map fst l.
 
 (* correspondence: (limit, graph before, what func saw, graph after) observed on the real code *)
-Definition tensor_eqb (a b : tensor) : bool := (t_size a =? t_size b) && (t_id a =? t_id b).
+Definition tensor_eqb (a b : tensor) : bool := (t_size a =? t_size b) && (t_id a =? t_id b) && (t_ty a =? t_ty b).
+Fixpoint ilist_eqb (a b : list (string * Z)) : bool :=
+  match a, b with [], [] => true | (x, u) :: a', (y, w) :: b' => String.eqb x y && (u =? w) && ilist_eqb a' b' | _, _ => false end.
 Fixpoint slist_eqb (a b : list string) : bool :=
   match a, b with [], [] => true | x :: a', y :: b' => String.eqb x y && slist_eqb a' b' | _, _ => false end.
 Fixpoint inits_eqb (a b : list (string * tensor)) : bool :=
@@ -63,7 +65,7 @@ Fixpoint inits_eqb (a b : list (string * tensor)) : bool :=
   | _, _ => false
   end.
 Definition gsig_eqb (a b : gsig) : bool :=
-  slist_eqb (g_inputs a) (g_inputs b) && slist_eqb (g_outputs a) (g_outputs b) && inits_eqb (g_inits a) (g_inits b).
+  ilist_eqb (g_inputs a) (g_inputs b) && slist_eqb (g_outputs a) (g_outputs b) && inits_eqb (g_inits a) (g_inits b).
 Fixpoint capi_disagreeing (i : nat) (cs : list (Z * gsig * gsig * gsig)) : list nat :=
   match cs with
   | [] => []
@@ -74,6 +76,6 @@ Fixpoint capi_disagreeing (i : nat) (cs : list (Z * gsig * gsig * gsig)) : list 
   end.
 
 (* witnesses *)
-Definition big := Tensor 4096 1.
-Definition small := Tensor 4 2.
-Definition w_capi : gsig := GSig ["x"%string] ["y"%string] [("w_big"%string, big); ("w_small"%string, small)].
+Definition big := Tensor 4096 1 7.
+Definition small := Tensor 4 2 8.
+Definition w_capi : gsig := GSig [("x"%string, 5)] ["y"%string] [("w_big"%string, big); ("w_small"%string, small)].
